@@ -390,6 +390,12 @@ package gostatsd
 //@   trusted
 //@   modifies everything
 //@   preserves cloudprovider.cloudProviderLookupDispatcher
+// the batch size a provider asks for is not negative (assumed of the providers)
+//@ func (CloudProvider).MaxInstancesBatch
+//@   trusted
+//@   ensures  result >= 0
+//@   modifies everything
+//@   preserves cloudprovider.cloudProviderLookupDispatcher
 
 // ---- matcher.go (C10): exact / prefix / regular-expression patterns, each optionally inverted ----
 // matchSpec is the documented meaning of one pattern; anyMatch of a pattern list.
